@@ -96,6 +96,13 @@ func (w *CWorld) applyEvent(ev string, p cParams) bool {
 		}
 		sc.conn.Close()
 		w.settle()
+	case "wfail": // half-open connection: the client's next write fails, its reads keep waiting
+		if !alive || sc.conn.Peer.WriteFail {
+			return false
+		}
+		sc.conn.Peer.WriteFail = true
+		w.wfails++
+		w.settle()
 	case "ready":
 		n, _ := strconv.ParseUint(f[1], 10, 64)
 		c := w.C
@@ -223,8 +230,12 @@ func (w *CWorld) eventEnabled(ev string) bool {
 			}
 		}
 		return alive && n > i
-	case "unsol", "note", "drop":
+	case "drop": // also between the registration and the accept
+		return alive && (sc.acceptSent != "" || sc.register != nil)
+	case "unsol", "note":
 		return alive && sc.acceptSent != ""
+	case "wfail":
+		return alive && sc.acceptSent != "" && !sc.conn.Peer.WriteFail && w.wfails < 1
 	case "call":
 		n := 0
 		for _, c := range w.calls {
@@ -324,7 +335,24 @@ func (w *CWorld) oracleCalls() {
 	timeout := int64(w.cfg.RequestTimeout)
 	used := map[*sReq]bool{}
 	for _, c := range w.calls {
-		if c.Kind == "ready" || c.Kind == "subscribe" {
+		if c.Kind == "subscribe" {
+			// a subscription call returns as soon as its message counts as sent
+			if c.Done && c.Err == nil {
+				got := false
+				for _, sc := range w.conns {
+					for i, m := range sc.recv {
+						if _, ok := m.(*client.SubscribePushData); ok && sc.recvAt[i] >= c.Start {
+							got = true
+						}
+					}
+				}
+				if !got {
+					w.fail("C18", "sent-means-written", "call succeeded although its request never reached the server (subscribe)", fmt.Sprintf("subscribe issued at %d ms returned nil; no connection of the server ever received a subscription message", c.Start/1e6))
+				}
+			}
+			continue
+		}
+		if c.Kind == "ready" {
 			continue
 		}
 		if !c.Done {
